@@ -175,7 +175,8 @@ func (mc *XMCache) newXModelCacheIterator(bucket string, startKey []byte, endKey
 	// 优先级顺序 outputIter -> inputIter -> backendIter
 	// 意味着如果一个key在三个迭代器里面同时出现，优先级高的会覆盖优先级底的
 	multiIter := newMultiIterator(inputIter, backendIter)
-	multiIter = newMultiIterator(outputIter, multiIter)
+	// outputIter带有本次执行产生的删除标记, 合并之后需要再剔除一次
+	multiIter = newStripDelIterator(newMultiIterator(outputIter, multiIter))
 	return newContractIterator(multiIter), nil
 }
 
